@@ -576,14 +576,16 @@ impl Memfs {
         // Convert relative links to absolute to ensure they are clean
         let target = self._abs(guard, if !target.is_absolute() { link.dir()?.mash(target) } else { target })?;
 
-        // Create the new entry as a link and set its target as a file by default
-        let mut entry_opts = MemfsEntry::opts(&link).file().link_to(&target)?;
+        // Create the new entry as a link, a link to a missing target is neither a file nor a directory
+        let mut entry_opts = MemfsEntry::opts(&link).link_to(&target)?;
 
-        // If the target exists and is a directory switch the type
+        // If the target exists take over its type
         {
             if let Some(x) = guard.get_entry(&target) {
                 if x.is_dir() {
-                    entry_opts = entry_opts.dir().link_to(&target)?;
+                    entry_opts = entry_opts.dir();
+                } else if x.is_file() {
+                    entry_opts = entry_opts.file();
                 }
             }
         }
